@@ -161,3 +161,41 @@ Print Assumptions C10_key_families_census.
 Print Assumptions C10_worklists_regenerated_forward.
 Print Assumptions C10_worklists_regenerated_backward.
 Print Assumptions C10_run_analysis_regenerated_one_key.
+
+(* ------------------------------------------------------------------------------------------------------------
+   Extension (joint pass over all keys): theorems from Lemmas/JointGenLemmas.v and Lemmas/JointTotal.v.  tealer iterates
+   ONE worklist for all keys of an analysis; the per-key model is related to that joint run here.  *)
+From Coq Require Import String List NArith ZArith Bool Arith.
+From Tealer Require Import JointGenLemmas JointTotal.
+
+(* joint run over the base key and its gtxn key family against the per-key family run of the model *)
+Theorem C10_run_analysis_gen_family_peq :
+      forall (T : Type) (t_eqb : T -> T -> bool) (univ null : string -> T)
+         (union inter : string -> T -> T -> T)
+         (single : string -> Syntax.instr -> nat -> list StackAst.sval -> T * T) 
+         (f : Analysis.func) (indices : list (nat * list Z)),
+       RunGenLemmas.run_graph_ok f ->
+       joint_graph_ok f ->
+       forall (base : string) (fuel afuel : nat) (d0 : SolverGen.gdict T) (br : list (nat * T))
+         (dfin : SolverGen.gdict T),
+       (forall b : nat,
+        In b (SolverLemmas.ids f) -> exists gi : list Z, Analysis.lookup (list Z) indices b = Some gi) ->
+       RunGenLemmas.init_gen T univ null union inter single f afuel
+         (base :: map (RunGenLemmas.key_of_fam base) Keys.all_gtx_fams) (SolverGen.kdict_empty T) = 
+       Some d0 ->
+       Domains.solve T t_eqb (univ base) (null base) (union base) (inter base) (single base) f fuel
+         (SolverGen.ddict_get T d0 base) = Analysis.Done br ->
+       RunGen.run_analysis_gen T t_eqb univ null union inter single f (base :: nil) 
+         (base :: nil) indices fuel (S (Datatypes.length (Analysis.fn_blocks f))) afuel = 
+       Some (Some dfin) ->
+       SolverGen.ddict_get T dfin base = br /\
+       (forall (fam : Keys.keyfam) (leq : T -> T -> Prop) (fuel' : nat) (r : list (nat * T)),
+        In fam Keys.all_gtx_fams ->
+        let key := RunGenLemmas.key_of_fam base fam in
+        key_order T t_eqb (null key) (union key) (inter key) leq ->
+        Domains.solve T t_eqb (univ key) (null key) (union key) (inter key) (single key) f fuel'
+          (RunGenLemmas.refine_fam (inter key) (null key) indices br fam (SolverGen.ddict_get T d0 key)) =
+        Analysis.Done r -> SolverLemmas.peq T t_eqb (SolverGen.ddict_get T dfin key) r).
+Proof. exact @run_analysis_gen_family_peq. Qed.
+
+Print Assumptions C10_run_analysis_gen_family_peq.
